@@ -183,4 +183,13 @@ theorem C03_wiring3 :
     Sso.Generated.skel_proxy_SetUpstreamConfig =
       ["func{", "store:op.upstreamConfig", "return", "}", "return"] := by decide
 
+/-- Tie (T1): the transport to the upstreams — exactly these fields of `http.Transport` are set (no `ForceAttemptHTTP2`, no
+custom `DialTLS`): requests reach an upstream with HTTP/1.1 framing, the framing the signing document, the `Cookie` rendering and the
+forward engine's recording backend are written for. -/
+theorem C03_upstream_transport :
+    Sso.Generated.upstreamTransportFields =
+      ["Proxy,DialContext,MaxIdleConns,IdleConnTimeout,TLSHandshakeTimeout,TLSClientConfig,ExpectContinueTimeout"] ∧
+    Sso.Generated.skel_proxy_getTransport =
+      ["call:Lock", "defer:Unlock", "call:Now", "call:After", "if{", "call:Now", "call:Add", "store:t.deadAfter", "store:t.transport", "}", "return"] := by decide
+
 end Sso.Forward
